@@ -25,27 +25,127 @@ func constStringArms(fn *ssa.Function) map[string]*ssa.If {
 		if !ok {
 			return
 		}
-		bo, ok := ifi.Cond.(*ssa.BinOp)
-		if !ok || bo.Op != token.EQL {
-			return
-		}
-		if s, ok := constString(bo.Y); ok {
-			out[s] = ifi
+		if s, ok := armKey(ifi); ok {
+			if _, dup := out[s]; !dup {
+				out[s] = ifi
+			}
 		}
 	})
 	return out
 }
 
-// armBlocks: blocks dominated by the true successor of an If (when that successor is entered only through it).
+// armKey: the constant an If compares a value with for equality: a string, or a character of a rune-like value
+// (`switch delim { case '{': ...`), rendered as a string.
+func armKey(ifi *ssa.If) (string, bool) {
+	bo, ok := ifi.Cond.(*ssa.BinOp)
+	if !ok || bo.Op != token.EQL {
+		return "", false
+	}
+	for _, o := range []ssa.Value{bo.Y, bo.X} {
+		if s, ok := constString(o); ok {
+			return s, true
+		}
+		if k, ok := constInt(o); ok && k >= 0x20 && k < 0x7f {
+			if b, isBasic := o.Type().Underlying().(*types.Basic); isBasic && (b.Kind() == types.Int32 || b.Kind() == types.UntypedRune || b.Kind() == types.Uint8) {
+				return string(rune(k)), true
+			}
+		}
+	}
+	return "", false
+}
+
+// armBlocks: the blocks that belong to the arm of an If that compares with a constant: every path to them passes the
+// true edge of a comparison with that constant or with another constant of the same multi-value case
+// (`case '}', ']':` enters one body from two comparisons). For other conditions: the blocks dominated by the true
+// successor.
 func armBlocks(ifi *ssa.If) []*ssa.BasicBlock {
-	tb := ifi.Block().Succs[0]
+	fn := ifi.Parent()
+	key, isConst := armKey(ifi)
 	var out []*ssa.BasicBlock
-	for _, b := range ifi.Parent().Blocks {
-		if tb.Dominates(b) {
+	if !isConst {
+		tb := ifi.Block().Succs[0]
+		for _, b := range fn.Blocks {
+			if tb.Dominates(b) {
+				out = append(out, b)
+			}
+		}
+		return out
+	}
+	sets := edgeLabelSets(fn, func(i *ssa.If) (string, bool) { return armKey(i) })
+	for _, b := range fn.Blocks {
+		if sets[b][key] {
 			out = append(out, b)
 		}
 	}
 	return out
+}
+
+var edgeLabelCache = map[*ssa.Function]map[*ssa.BasicBlock]map[string]bool{}
+
+// edgeLabelSets is the must-analysis of typeSwitchArms for arbitrary labelled true-edges.
+func edgeLabelSets(fn *ssa.Function, label func(*ssa.If) (string, bool)) map[*ssa.BasicBlock]map[string]bool {
+	if c, ok := edgeLabelCache[fn]; ok {
+		return c
+	}
+	type set = map[string]bool
+	known := map[*ssa.BasicBlock]bool{}
+	val := map[*ssa.BasicBlock]set{}
+	edge := func(from *ssa.BasicBlock, succIdx int) (string, bool) {
+		if len(from.Instrs) == 0 || succIdx != 0 {
+			return "", false
+		}
+		ifi, ok := from.Instrs[len(from.Instrs)-1].(*ssa.If)
+		if !ok {
+			return "", false
+		}
+		return label(ifi)
+	}
+	if len(fn.Blocks) > 0 {
+		known[fn.Blocks[0]] = true
+		val[fn.Blocks[0]] = set{}
+		for changed := true; changed; {
+			changed = false
+			for _, b := range fn.Blocks[1:] {
+				empty, any := false, false
+				u := set{}
+				for _, p := range b.Preds {
+					for si, sc := range p.Succs {
+						if sc != b {
+							continue
+						}
+						if k, ok := edge(p, si); ok {
+							u[k] = true
+							any = true
+							continue
+						}
+						if !known[p] {
+							continue
+						}
+						any = true
+						if len(val[p]) == 0 {
+							empty = true
+						}
+						for k := range val[p] {
+							u[k] = true
+						}
+					}
+				}
+				if !any {
+					continue
+				}
+				if empty {
+					u = set{}
+				}
+				if !known[b] || len(u) != len(val[b]) {
+					known[b] = true
+					val[b] = u
+					changed = true
+				}
+			}
+		}
+	}
+	edgeLabelCache[fn] = val
+	return val
 }
 
 func checkC16(w *World) {
@@ -53,7 +153,7 @@ func checkC16(w *World) {
 	docRule(P, "R16.1", "D", "end of input: when the token reader reports io.EOF while a container is still open (the state stack is non-empty) the adapter returns a different, non-EOF error; io.EOF reaches the store (which turns it into success) only with an empty stack.")
 	docRule(P, "R16.2", "T siblings", "delimiter arms: '{' and '[' push a state and return a start element named by the documented constants #obj / #arr (end flag false); '}' and ']' pop a state and return an end event (nil node, end flag true); the pushed states differ; the four arms are the only push/pop sites.")
 	docRule(P, "R16.3", "X+T", "scalar rendering: the type switch covers bool, float64, json.Number and string, the default (JSON null) returns \"null\"; floats are rendered with strconv.FormatFloat(x,'g',-1,64) (shortest representation that reads back to the same double); scalars are returned as character-data nodes, keys as element nodes in no namespace.")
-	pull := w.method("parser", "jsonParser", "Pull")
+	pull := w.pullOf("ReadJson")
 	if pull == nil {
 		w.undecided(P, "R16.1", "JSON adapter", 0, "parser.jsonParser.Pull not found")
 		return
@@ -343,10 +443,84 @@ func checkC17(w *World) {
 	docRule(P, "R17.1", "X+T", "the switch over html.NodeType in the HTML pull adapter has an arm for each of the 7 node types of golang.org/x/net/html; ElementNode, TextNode, CommentNode return the matching node kind (end flag false) and mark the node emitted; ErrorNode and RawNode return errors; DocumentNode requires a DoctypeNode first child, else an error.")
 	docRule(P, "R17.2", "F+T", "no namespaces: the Space() methods of the HTML element and attribute types return the constant \"\"; element and attribute names both pass through the same prefix-stripping helper; attributes named xmlns or starting with xmlns: are skipped, and nothing else is.")
 	docRule(P, "R17.3", "D", "end events are guarded as the pairing needs: the synthetic end for a childless element is scheduled iff FirstChild == nil; the climb returns one end per step to a parent; io.EOF is returned only when the climb reaches a node without parent. (Guards, not a proof of pairing.)")
-	pull := w.method("parser", "htmlParser", "Pull")
+	pull := w.pullOf("ReadHtml")
 	if pull == nil {
 		w.undecided(P, "R17.1", "HTML adapter", 0, "parser.htmlParser.Pull not found")
 		return
+	}
+	// roles of the adapter's state fields, by what Pull does under each flag (never by field name):
+	//   cursor: the field of type *html.Node; self-close flag: tested true => an end event is returned and the cursor
+	//   stays; emitted flag: tested true => the cursor advances to FirstChild/NextSibling; climb flag: => to Parent.
+	flagRole := map[int]string{}
+	cursorField := -1
+	isRecvField := func(v ssa.Value) (*ssa.FieldAddr, bool) {
+		ld, ok := v.(*ssa.UnOp)
+		if !ok {
+			return nil, false
+		}
+		fa, ok := ld.X.(*ssa.FieldAddr)
+		if !ok || len(pull.Params) == 0 || fa.X != ssa.Value(pull.Params[0]) {
+			return nil, false
+		}
+		return fa, true
+	}
+	allInstrs(pull, func(in ssa.Instruction) {
+		if fa, ok := in.(*ssa.FieldAddr); ok && len(pull.Params) > 0 && fa.X == ssa.Value(pull.Params[0]) {
+			if pt, ok := fa.Type().(*types.Pointer).Elem().(*types.Pointer); ok {
+				if n, ok := pt.Elem().(*types.Named); ok && n.Obj().Name() == "Node" && n.Obj().Pkg() != nil && n.Obj().Pkg().Path() == "golang.org/x/net/html" {
+					cursorField = fa.Field
+				}
+			}
+		}
+	})
+	allInstrs(pull, func(in ssa.Instruction) {
+		ifi, ok := in.(*ssa.If)
+		if !ok {
+			return
+		}
+		fa, ok := isRecvField(ifi.Cond)
+		if !ok {
+			return
+		}
+		if b, isB := fa.Type().(*types.Pointer).Elem().Underlying().(*types.Basic); !isB || b.Kind() != types.Bool {
+			return
+		}
+		endRet, moves := false, map[string]bool{}
+		tb := ifi.Block().Succs[0]
+		for _, b := range pull.Blocks {
+			if !tb.Dominates(b) {
+				continue
+			}
+			for _, bin := range b.Instrs {
+				switch x := bin.(type) {
+				case *ssa.Return:
+					if len(x.Results) == 3 && isNilConst(x.Results[0]) && isNilConst(x.Results[2]) {
+						if c, ok := x.Results[1].(*ssa.Const); ok && c.Value != nil && c.Value.String() == "true" {
+							endRet = true
+						}
+					}
+				case *ssa.Store:
+					if sfa, ok := x.Addr.(*ssa.FieldAddr); ok && sfa.X == ssa.Value(pull.Params[0]) && sfa.Field == cursorField {
+						if ld, ok := x.Val.(*ssa.UnOp); ok {
+							if lfa, ok := ld.X.(*ssa.FieldAddr); ok {
+								moves[fieldName(lfa)] = true
+							}
+						}
+					}
+				}
+			}
+		}
+		switch {
+		case endRet && len(moves) == 0:
+			flagRole[fa.Field] = "selfclose"
+		case moves["Parent"]:
+			flagRole[fa.Field] = "climb"
+		case moves["FirstChild"] || moves["NextSibling"]:
+			flagRole[fa.Field] = "emitted"
+		}
+	})
+	isFlag := func(fa *ssa.FieldAddr, role string) bool {
+		return len(pull.Params) > 0 && fa.X == ssa.Value(pull.Params[0]) && flagRole[fa.Field] == role
 	}
 	// node type constants of x/net/html
 	typeNames := map[int64]string{}
@@ -409,7 +583,7 @@ func checkC17(w *World) {
 			if st, ok := in.(*ssa.Store); ok {
 				if c, ok := st.Val.(*ssa.Const); ok && c.Value != nil && c.Value.String() == "true" {
 					if fa, ok := st.Addr.(*ssa.FieldAddr); ok {
-						if fieldName(fa) == "nodeEmitted" || strings.Contains(strings.ToLower(fieldName(fa)), "emitted") {
+						if isFlag(fa, "emitted") {
 							emitted = true
 						}
 					}
@@ -427,7 +601,7 @@ func checkC17(w *World) {
 						}
 						if st, ok := in.(*ssa.Store); ok {
 							if c, ok := st.Val.(*ssa.Const); ok && c.Value != nil && c.Value.String() == "true" {
-								if fa, ok := st.Addr.(*ssa.FieldAddr); ok && strings.Contains(strings.ToLower(fieldName(fa)), "emitted") {
+								if fa, ok := st.Addr.(*ssa.FieldAddr); ok && isFlag(fa, "emitted") {
 									emitted = true
 								}
 							}
@@ -521,36 +695,48 @@ func checkC17(w *World) {
 		// skip conditions
 		skipEq, skipPrefix := false, false
 		other := 0
-		allInstrs(attrBuilder, func(in ssa.Instruction) {
-			ifi, ok := in.(*ssa.If)
-			if !ok {
-				return
+		// every string test on the attribute name, in the builder and in the predicates it calls (not the stripping helper)
+		var scan []*ssa.Function
+		for g := range staticReach(attrBuilder, func(x *ssa.Function) bool { return fnPkgKey(x) == "parser" && x != strip }) {
+			if fnPkgKey(g) == "parser" && g != strip {
+				scan = append(scan, g)
 			}
-			switch c := ifi.Cond.(type) {
-			case *ssa.BinOp:
-				if s, ok := constString(c.Y); ok && c.Op == token.EQL {
-					if s == "xmlns" {
-						skipEq = true
-					} else {
-						other++
+		}
+		for _, g := range scan {
+			allInstrs(g, func(in ssa.Instruction) {
+				switch c := in.(type) {
+				case *ssa.BinOp:
+					if c.Op != token.EQL && c.Op != token.NEQ {
+						return
 					}
-				}
-			case *ssa.Call:
-				if staticCallee(c) != nil && funcFullName(staticCallee(c)) == "strings.HasPrefix" {
-					if s, ok := constString(c.Call.Args[1]); ok && s == "xmlns:" {
-						skipPrefix = true
-					} else if bo, ok := c.Call.Args[1].(*ssa.BinOp); ok && bo.Op == token.ADD {
-						a, _ := constString(bo.X)
-						b, _ := constString(bo.Y)
-						if a+b == "xmlns:" {
-							skipPrefix = true
+					s, ok := constString(c.Y)
+					if !ok {
+						s, ok = constString(c.X)
+					}
+					if ok {
+						if s == "xmlns" {
+							skipEq = true
+						} else {
+							other++
 						}
-					} else {
-						other++
+					}
+				case *ssa.Call:
+					if staticCallee(c) != nil && funcFullName(staticCallee(c)) == "strings.HasPrefix" {
+						if s, ok := constString(c.Call.Args[1]); ok && s == "xmlns:" {
+							skipPrefix = true
+						} else if bo, ok := c.Call.Args[1].(*ssa.BinOp); ok && bo.Op == token.ADD {
+							a, _ := constString(bo.X)
+							b, _ := constString(bo.Y)
+							if a+b == "xmlns:" {
+								skipPrefix = true
+							}
+						} else {
+							other++
+						}
 					}
 				}
-			}
-		})
+			})
+		}
 		w.check(P, "R17.2", "xmlns attributes are skipped and nothing else", attrBuilder.Pos(), skipEq && skipPrefix && other == 0, fmt.Sprintf("skips name == \"xmlns\": %v; names with prefix \"xmlns:\": %v; other name-based conditions: %d", skipEq, skipPrefix, other))
 	}
 	w.floor(P, "R17.2", 4)
@@ -563,7 +749,7 @@ func checkC17(w *World) {
 			return
 		}
 		fa, ok := st.Addr.(*ssa.FieldAddr)
-		if !ok || !strings.Contains(strings.ToLower(fieldName(fa)), "selfclosing") {
+		if !ok || !isFlag(fa, "selfclose") {
 			return
 		}
 		c, ok := st.Val.(*ssa.Const)
@@ -588,7 +774,7 @@ func checkC17(w *World) {
 			return
 		}
 		fa, ok := st.Addr.(*ssa.FieldAddr)
-		if !ok || !strings.Contains(strings.ToLower(fieldName(fa)), "selfclosing") {
+		if !ok || !isFlag(fa, "selfclose") {
 			return
 		}
 		c, ok := st.Val.(*ssa.Const)
@@ -631,7 +817,7 @@ func checkC17(w *World) {
 					if fa2, ok := l2.X.(*ssa.FieldAddr); ok && fieldName(fa2) == "Parent" {
 						if _, direct := fa2.X.(*ssa.UnOp); direct {
 							// x.node.Parent == nil (the current node itself, not its parent's parent)
-							if inner, ok := fa2.X.(*ssa.UnOp).X.(*ssa.FieldAddr); ok && fieldName(inner) == "node" {
+							if inner, ok := fa2.X.(*ssa.UnOp).X.(*ssa.FieldAddr); ok && inner.Field == cursorField {
 								eofGuard = true
 								eofGuarded++
 							}
@@ -778,7 +964,7 @@ func checkC17(w *World) {
 				return
 			}
 			k, isK := constInt(bo.Y)
-			if !isK {
+			if !isK || !isCmpOp(bo.Op) {
 				return
 			}
 			good := (bo.Op == token.GEQ && k == 0) || (bo.Op == token.GTR && k == -1) || (bo.Op == token.NEQ && k == -1) || (bo.Op == token.LSS && k == 0) || (bo.Op == token.EQL && k == -1)
